@@ -9,7 +9,8 @@ GEN_KEYS = ['sql_types']
 M = 'MorphKgc.Props.C20'
 THEOREMS = [{'name': f'Props.C20.{n}', 'module': M} for n in [
     'C20_table_self_consistent', 'C20_natural_mapping', 'C20_dbms_catalog_names', 'C20_character_types',
-    'C20_parameters', 'C20_override_explicit', 'C20_inference_off', 'C20_only_reference_literals', 'C20_inferred']]
+    'C20_parameters', 'C20_override_explicit', 'C20_inference_off', 'C20_only_reference_literals', 'C20_inferred',
+    'C20_ref_loop_shape', 'C20_query_first_table_with_type']]
 RULE = ('catalogue type names: every name of Spec.naturalMapping/dbmsCatalogNames/characterTypes x {as is, upper, lower} '
         'x {no parameters, generated parameter lists}, plus strings assembled from fragments of the table keys; '
         'each is looked up by the real _get_column_table_datatype (catalogue query stubbed) and by the Lean model; '
